@@ -6,7 +6,7 @@ the id of the terminator condition expression, so queries can be *projected* on 
 dropped) — the only path sensitivity used.
 """
 from .extract import AnalysisBroken
-from .facts import skip_copies, const_int, name_is, strip_tmpl, walk
+from .facts import skip_copies, const_int, name_is, strip_tmpl, walk, single_assignment_init
 
 TWO_WAY = ("IfStmt", "ConditionalOperator", "BinaryOperator", "WhileStmt", "ForStmt", "DoStmt", "CXXForRangeStmt",
            "BinaryConditionalOperator")
@@ -205,7 +205,7 @@ class Graph:
             if e.idx is None or e.nsucc != 2 or e.termk not in TWO_WAY:
                 return True
             c = self.effective_cond(e)
-            v = eval_cond(c, atom)
+            v = eval_cond(c, atom, self.fn)
             if v is None:
                 return True
             return (e.idx == 0) == bool(v)
@@ -243,8 +243,9 @@ class Graph:
         return IN, OUT
 
 
-def eval_cond(n, atom):
-    """three-valued evaluation of a boolean expression given values of atoms"""
+def eval_cond(n, atom, fn=None, _depth=0):
+    """three-valued evaluation of a boolean expression given values of atoms; with fn, single-assignment locals are
+    replaced by their initialiser (`const bool hit = a || b; if (!hit)`)"""
     n = skip_copies(n)
     if not isinstance(n, dict):
         return None
@@ -252,21 +253,26 @@ def eval_cond(n, atom):
     if v is not None:
         return v
     k = n.get("k")
+    if fn is not None and k == "ref" and n.get("dk") == "local" and _depth < 4:
+        init = single_assignment_init(fn, n.get("decl"))
+        if init is not None:
+            return eval_cond(init, atom, fn, _depth + 1)
+        return None
     if k == "bool":
         return bool(n["v"])
     if k == "unop" and n.get("op") == "!":
-        x = eval_cond(n.get("e"), atom)
+        x = eval_cond(n.get("e"), atom, fn, _depth)
         return None if x is None else (not x)
     if k == "call" and n.get("ck") == "operator" and n.get("op") == "!" and len(n.get("args", [])) == 1:
-        x = eval_cond(n["args"][0], atom)
+        x = eval_cond(n["args"][0], atom, fn, _depth)
         return None if x is None else (not x)
     if k == "call" and n.get("ck") == "member" and (n.get("conv") or name_is(n.get("callee"), ("operator bool", "isNull", "data", "get", "operator->"))):
-        x = eval_cond(n.get("obj"), atom)
+        x = eval_cond(n.get("obj"), atom, fn, _depth)
         if x is None:
             return None
         return (not x) if name_is(n.get("callee"), "isNull") else x
     if k == "binop" and n.get("op") in ("&&", "||"):
-        a, b = eval_cond(n.get("lhs"), atom), eval_cond(n.get("rhs"), atom)
+        a, b = eval_cond(n.get("lhs"), atom, fn, _depth), eval_cond(n.get("rhs"), atom, fn, _depth)
         if n["op"] == "&&":
             if a is False or b is False:
                 return False
@@ -282,7 +288,7 @@ def eval_cond(n, atom):
         for x, y in ((n.get("lhs"), n.get("rhs")), (n.get("rhs"), n.get("lhs"))):
             y = skip_copies(y)
             if isinstance(y, dict) and y.get("k") in ("null_lit", "bool", "int"):
-                xv = eval_cond(x, atom)
+                xv = eval_cond(x, atom, fn, _depth)
                 if xv is None:
                     return None
                 yv = False if y["k"] == "null_lit" else bool(y["v"])
